@@ -242,6 +242,15 @@ func searchMain(t *testing.T, h Harness) {
 	prop := func(rt *rapid.T) {
 		c := h.Gen(rt, tier)
 		trace := execs < 2
+		if cg := os.Getenv("VERIF_CRASHGUARD"); cg != "" {
+			// the case is on disk before it runs, so that a fatal runtime error
+			// (stack exhaustion, concurrent map write) can be attributed to it
+			cb, _ := json.Marshal(c)
+			rf := ReplayFile{Property: h.Property, Harness: h.Name, VerifSeed: seed, Worker: worker, Fingerprint: "", Case: cb,
+				Violation: Violation{Class: "crash", Msg: "the process died while executing this case"}}
+			b, _ := json.Marshal(rf)
+			os.WriteFile(cg, b, 0o644)
+		}
 		dump := envInt("VERIF_DUMPRUN", -1) == execs+1
 		res := h.Run(t, c, trace || dump)
 		execs++
